@@ -103,6 +103,7 @@ pub fn build(r: &mut Rng, kind: ConnKind, client: Endpoint, server: Endpoint, o:
     let g = gap(r, &mut t);
     steps.push(Step { dt_ns: g, seg: tcp::data(&hc, client, server, isn_c.wrapping_add(1), isn_s.wrapping_add(1), vec![], t, hs.tsval(t), pkt::ACK) });
 
+    let mut forced_cut_c: Option<usize> = None;
     let (cstream, sstream): (Vec<u8>, Vec<u8>) = match kind {
         ConnKind::TcpOnly => (vec![], vec![]),
         ConnKind::Tls => {
@@ -112,14 +113,26 @@ pub fn build(r: &mut Rng, kind: ConnKind, client: Endpoint, server: Endpoint, o:
             }
             let mut c = tls::client_hello(r, &spec);
             if !o.tls_single_segment {
-                c.extend_from_slice(&tls::trailing(r));
+                let ok = c.len() <= 16000;
+                c.extend_from_slice(&tls::trailing_opt(r, ok));
             }
             let s = tls::non_hello_handshake(r);
             (c, s)
         }
         ConnKind::Http1 => {
             let (rq, rs) = if r.chance(1, 8) { (http1::exotic_request(r), http1::exotic_response(r)) } else { (http1::request(r, 300), http1::response(r, 600)) };
-            (rq.bytes, rs.bytes)
+            // one request in twelve carries, as the value of its last header, bytes that are also a complete
+            // ClientHello record, and the segment boundary falls exactly in front of them
+            match (r.chance(1, 12), tls::ascii_client_hello(r)) {
+                (true, Some(hello)) => {
+                    let mut b = format!("POST /upload/{} HTTP/1.1\r\nHost: blob{}.example.test\r\nUser-Agent: curl/8.4.0\r\nX-Blob: ", r.below(1000), r.below(100)).into_bytes();
+                    forced_cut_c = Some(b.len());
+                    b.extend_from_slice(&hello);
+                    b.extend_from_slice(b"\r\n\r\n");
+                    (b, rs.bytes)
+                }
+                _ => (rq.bytes, rs.bytes),
+            }
         }
         ConnKind::Http2 | ConnKind::Http2Hostile => {
             let hostile = if kind == ConnKind::Http2Hostile { *r.pick(&[http2::Hostile::SizeZero, http2::Hostile::SizeZeroThenBogus, http2::Hostile::SizeZeroThenBogus, http2::Hostile::PolluteThenBogus, http2::Hostile::SizeHuge, http2::Hostile::BogusRef, http2::Hostile::Polluter]) } else { http2::Hostile::None };
@@ -154,7 +167,11 @@ pub fn build(r: &mut Rng, kind: ConnKind, client: Endpoint, server: Endpoint, o:
     };
     let parts_c = if (kind == ConnKind::Tls && o.tls_single_segment) || kind == ConnKind::TlsThenHttpResponse { 1 } else { o.max_parts };
     let mut seq_c = isn_c.wrapping_add(1);
-    for (a, b) in cut_stream(r, cstream.len(), parts_c) {
+    let c_parts = match forced_cut_c {
+        Some(p) if p > 0 && p < cstream.len() => vec![(0, p), (p, cstream.len())],
+        _ => cut_stream(r, cstream.len(), parts_c),
+    };
+    for (a, b) in c_parts {
         let g = gap(r, &mut t);
         steps.push(Step { dt_ns: g, seg: tcp::data(&hc, client, server, seq_c, isn_s.wrapping_add(1), cstream[a..b].to_vec(), t, hs.tsval(t), pkt::ACK | pkt::PSH) });
         seq_c = seq_c.wrapping_add((b - a) as u32);
